@@ -28,8 +28,8 @@ def handle : List String → Option String
     pure (match PresentExt.presentParseIter d with
       | none => "none"
       | some (gs, ds) => s!"ds={ds} {listStr (gs.map showGroup)}")
-  -- trace <prime ops> <package ops> <post ops> <prepare: [prio:pred:tag,…]> <single 0|1> <body hex> <internal names [hex,…]>
-  | ["trace", pr, pk, po, pf, single, body, names] => do
+  -- trace <prime ops> <package ops> <post ops> <prepare: [prio:pred:tag,…]> <single 0|1> <body hex> <internal names [hex,…]> <present_fn: [prio:pred:tag,…]>
+  | ["trace", pr, pk, po, pf, single, body, names, pn] => do
     let lpr ← (run [] (← parseOps pr))
     let lpk ← (run [] (← parseOps pk))
     let lpo ← (run [] (← parseOps po))
@@ -49,7 +49,15 @@ def handle : List String → Option String
     -- every Prime sees the URI as the earlier ones left it: those with an even tag append `~<tag>` to the query
     let primes := ((runAll lpr).foldl (fun (acc : List String × String) t =>
       (acc.1 ++ [s!"prime{t}@{acc.2}"], if t % 2 == 0 then acc.2 ++ s!"~{t}" else acc.2)) ([], "")).1
-    let tr := primes ++ [s!"prepare{optStr toString choice}"] ++
+    -- predicate-bound Present extensions: every accepting one, in list order, before the named ones
+    let ns ← (← parseList pn).mapM fun s => match s.splitOn ":" with
+      | [p, b, t] => do pure ((← p.toInt?), (← parseBool b), (← t.toNat?))
+      | _ => none
+    let lpn ← run [] (ns.map fun (p, _, t) => .add p false t)
+    let predN (t : Nat) : Bool := (ns.find? fun (_, _, t') => t' == t).map (·.2.1) |>.getD false
+    -- (they see every response that passes `resolve_present`, the host's 404 for a missing file included)
+    let pfns := presentFns (lpn.map fun e => (e, predN e.2))
+    let tr := primes ++ [s!"prepare{optStr toString choice}"] ++ pfns.map (fun t => s!"presentfn{t}") ++
       present.map (fun s => s!"present:{s}") ++ (runAll lpk).map (fun t => s!"package{t}") ++
       (runAll lpo).map (fun t => s!"post{t}")
     pure (listStr tr)
